@@ -7,6 +7,7 @@ import (
 
 	"github.com/cedar-policy/cedar-go/internal/consts"
 	"github.com/cedar-policy/cedar-go/internal/extensions"
+	"github.com/cedar-policy/cedar-go/types"
 	"github.com/cedar-policy/cedar-go/x/exp/ast"
 )
 
@@ -164,6 +165,16 @@ func (n NodeTypeNot) marshalCedar(buf *bytes.Buffer) {
 
 func (n NodeTypeNegate) marshalCedar(buf *bytes.Buffer) {
 	buf.WriteRune('-')
+	// A minus sign directly in front of an integer literal is read back as part of the
+	// literal, so the negation of a non-negative literal keeps explicit parentheses.
+	if v, ok := n.NodeTypeNegate.Arg.(ast.NodeValue); ok {
+		if l, ok := v.Value.(types.Long); ok && l >= 0 {
+			buf.WriteRune('(')
+			buf.Write(v.Value.MarshalCedar())
+			buf.WriteRune(')')
+			return
+		}
+	}
 	marshalChildNode(n.precedenceLevel(), n.NodeTypeNegate.Arg, buf)
 }
 
